@@ -527,7 +527,7 @@ printf("debug> macros_parse() name_test='%s' %d\n", name_test, index);
     if (in_quote == false && in_tick == false &&
         (ch == ';' || (ptr > 0 && ch == '/' && macro[ptr-1] == '/')))
     {
-      if (macro[ptr-1] == '/') { ptr--; }
+      if (ptr > 0 && macro[ptr-1] == '/') { ptr--; }
 
       while (true)
       {
